@@ -43,7 +43,7 @@ def run(ctx):
     if n:
         runs.append(run_stream(ctx, exe, hx, srv, "main", ["c24", "--seed", str(ctx.seed), "--n", str(n), "--len", str(ln), "--expiry", "1"],
                                suffixes=("", "_expiry")))
-    failures, dis, stats = [], [], []
+    failures, dis, stats = [], tier_a(exe), []
     for r in runs:
         failures += oracle_failures(r["oracle"])
         dis += diff_server(r, r["oracle"])
